@@ -62,7 +62,8 @@ class Whitening(TransformerMixin, BaseEstimator):
         cov = numerical_module.cov(numerical_module.transpose(X))
 
         # 2. Computes the inverse of the covariance matrix
-        inv_cov = pinv(cov) if self.pinv else inv(cov)
+        # scipy's pinv returns a numpy array: convert back for the dask cholesky
+        inv_cov = numerical_module.asarray(pinv(cov)) if self.pinv else inv(cov)
 
         # 3. Computes the Cholesky decomposition of the inverse covariance matrix
         self.weights = cholesky(
